@@ -19,6 +19,8 @@ import sys
 import time
 import traceback
 
+from . import journal
+
 RUN_TIMEOUT_S = float(os.environ.get('VERIF_RUN_TIMEOUT', '180'))
 
 
@@ -42,7 +44,12 @@ def run_child(fn, args=(), timeout: float = RUN_TIMEOUT_S) -> dict:
         code = 0
         try:
             try:
+                # The simulator owns garbage-collection timing: automatic collection is off
+                # inside a run; engines collect at deterministic points (between operations).
+                gc.disable()
+                journal.start()
                 res = fn(*args)
+                journal.finish()
                 data = json.dumps(res, sort_keys=True, default=_json_default).encode()
             except BaseException:  # noqa: BLE001 - report everything to the parent
                 data = json.dumps({'harness_error': traceback.format_exc()}).encode()
@@ -73,10 +80,15 @@ def run_child(fn, args=(), timeout: float = RUN_TIMEOUT_S) -> dict:
         except ProcessLookupError:
             pass
         os.waitpid(pid, 0)
+        journal.read_and_remove(pid)
         return {'harness_error': f'run timed out after {timeout}s'}
     _, status = os.waitpid(pid, 0)
     raw = b''.join(chunks)
     if not raw:
+        ops = journal.read_and_remove(pid)
+        if os.WIFSIGNALED(status) and os.WTERMSIG(status) in (signal.SIGSEGV, signal.SIGBUS,
+                                                                signal.SIGABRT, signal.SIGFPE, signal.SIGILL):
+            return {'native_crash': os.WTERMSIG(status), 'journal': ops}
         return {'harness_error': f'child died without result (status {status})'}
     try:
         return json.loads(raw)
